@@ -85,6 +85,20 @@ Proof.
   apply iterator_sound. intros k e H. now apply (pi_heads _ _ I) in H.
 Qed.
 
+(* ... and only entries from the causal past - inside the log - of the bounds it started from: the soundness
+   half of [C15_iterator_range] on truncated and re-opened replicas, under every ordering, ties included
+   (Proofs/IterPast.v; completeness needs the closure of the log) *)
+From IpfsLog Require Import Proofs.IterPast.
+Theorem C15_emits_only_the_past_of_the_bounds_in_every_history ops r l o st es c :
+  owf ops -> nth_error (s_logs (run ops)) r = Some l ->
+  iter_start l o = Ok st -> iterator l o = Ok (es, c) ->
+  forall e, In e es -> treach (l_entries l) (oslice (from_entries st)) (e_hash e).
+Proof.
+  intros W L. destruct (osinv_run ops W) as [_ IL]. pose proof (IL r l L) as I.
+  apply iterator_within_past; [exact (pi_nodup _ _ I)|exact (pinv_well_keyed _ _ I)|].
+  intros k e H. now apply (pi_heads _ _ I) in H.
+Qed.
+
 (* ... and no entry (no hash) is emitted twice - on any log whatsoever, under any ordering and any options:
    the traversal records an entry under its own hash and only when that hash is not recorded yet
    (Proofs/IterNoDup.v; no invariant of the log is needed) *)
@@ -130,3 +144,4 @@ Print Assumptions C15_nonvacuous.
 Print Assumptions C15_never_panics_in_every_history.
 Print Assumptions C15_emits_only_log_entries_in_every_history.
 Print Assumptions C15_never_emits_an_entry_twice.
+Print Assumptions C15_emits_only_the_past_of_the_bounds_in_every_history.
